@@ -540,8 +540,7 @@ fn main() {
                 (8, vec![0, 1, 2], true),
                 (16, vec![0, 1, 2], true),
                 (32, vec![0, 1, 2], true),
-                (64, vec![1, 2], false),
-                (64, vec![0], true),
+                (64, vec![0, 1, 2], true),
             ]
         };
         let cap = ctx.tier.pick(50.0, 840.0);
@@ -567,7 +566,7 @@ fn main() {
         &ctx,
         rep,
         Spec {
-            rule: "squares = EDS widths {2,4,8,16}x3 layouts + 32x'structured' (quick) / {2,..,64}x3 layouts (thorough), layouts structured|distinct|uniform; per square: every requested coordinate (r,c) x both proof axes x paths {direct struct, wire bytes->decode} x { honest sample; honest sample of every other position (whole square for w<=16 quick / w<=32 and 64x'structured' thorough, else same row + same column + transposed) as built and with proof_type flipped; every listed single mutation of the honest sample (6 share bytes, 11 proof ranges, per sibling 4 flips+drop+dup+swap, padding to n+1/63/64/65 siblings, proof_type flip/invalid, ignore-max flag, leaf hash, parity flag, missing share/proof, 3 share lengths); same position of a foreign square }; plus, per line (row l for row proofs, column l for column proofs), requests OUTSIDE the square: in-line index j in {w..=2w, 3w, 4w-1, 4w, 8w, 2^15, 65535} x honest samples of the cells of the line (all for w<=16, else the last 4) x {proof range moved to j..j+1, unchanged} x paths, and both coordinates outside. Cases are distinct by construction (one evaluation per tuple); non-trivial = every non-honest candidate that could be expressed on its path",
+            rule: "squares = EDS widths {2,4,8,16}x3 layouts + 32x'structured' (quick) / {2,..,64}x3 layouts (thorough), layouts structured|distinct|uniform; per square: every requested coordinate (r,c) x both proof axes x paths {direct struct, wire bytes->decode} x { honest sample; honest sample of every other position (whole square, except quick w=32: same row + same column + transposed) as built and with proof_type flipped; every listed single mutation of the honest sample (6 share bytes, 11 proof ranges, per sibling 4 flips+drop+dup+swap, padding to n+1/63/64/65 siblings, proof_type flip/invalid, ignore-max flag, leaf hash, parity flag, missing share/proof, 3 share lengths); same position of a foreign square }; plus, per line (row l for row proofs, column l for column proofs), requests OUTSIDE the square: in-line index j in {w..=2w, 3w, 4w-1, 4w, 8w, 2^15, 65535} x honest samples of the cells of the line (all for w<=16, else the last 4) x {proof range moved to j..j+1, unchanged} x paths, and both coordinates outside. Cases are distinct by construction (one evaluation per tuple); non-trivial = every non-honest candidate that could be expressed on its path",
             assumptions: &[
                 "payload bytes come from VERIF_SEED (Fill); layouts, widths, coordinates and mutations are enumerated, never sampled",
                 "the square is what ExtendedDataSquare::from_ods produced from the fixture ODS; the brute-force view is copied from its flat share list and its DAH is re-derived by an independent NMT implementation at fixture build time",
